@@ -131,6 +131,24 @@ func c04Find(keys []string, k string) int {
 	return -1
 }
 
+// c04SeqAgainstMap: at some common key (at any depth of common maps) a holds a sequence and b a non-empty map.
+func c04SeqAgainstMap(a, b *c04V) bool {
+	for i, k := range b.keys {
+		idx := c04Find(a.keys, k)
+		if idx < 0 {
+			continue
+		}
+		av, bv := a.items[idx], b.items[i]
+		if av.kind == 2 && bv.kind == 1 && len(bv.keys) > 0 {
+			return true
+		}
+		if av.kind == 1 && bv.kind == 1 && c04SeqAgainstMap(av, bv) {
+			return true
+		}
+	}
+	return false
+}
+
 // c04RefMerge: the documented merge. open=true is returned when the documentation leaves the outcome
 // undefined (kind conflict at the same key together with +, ? or n).
 func c04RefMerge(a, b *c04V, plus, onlyExisting, onlyNew, deep bool) (*c04V, bool) {
@@ -153,6 +171,10 @@ func c04RefMerge(a, b *c04V, plus, onlyExisting, onlyNew, deep bool) (*c04V, boo
 			res.items[idx] = m
 			open = open || o
 		case av.kind != bv.kind && (av.kind != 0 || av.tag != "!!null") && (bv.kind != 0 || bv.tag != "!!null"):
+			if onlyNew && !plus && !onlyExisting && !deep {
+				// `n` alone: only new keys are merged, an existing key keeps its value whatever the kinds are
+				continue
+			}
 			if plus || onlyExisting || onlyNew {
 				open = true
 			}
@@ -308,7 +330,11 @@ func c04MergeBody(entries, depth int) {
 		verifCover("C04/merge/open-region")
 		return
 	}
-	verifAssert(errE == nil && res.Len() == 1, "C04/merge-error "+label)
+	errClass := ""
+	if c04SeqAgainstMap(a, b) {
+		errClass = " [a sequence on the left where the right has a map]"
+	}
+	verifAssert(errE == nil && res.Len() == 1, "C04/merge-error "+label+errClass)
 	if errE != nil || res.Len() != 1 {
 		return
 	}
